@@ -36,6 +36,8 @@ T = {
 EXTRA = "/tmp/seed/confirm_table.json"   # further entries added later: {"C17-a": [demo_path, cmd, [[ws,bin,[args]]]]}
 if os.path.exists(EXTRA):
     for k, v in json.load(open(EXTRA)).items():
+        if k in T:
+            continue
         T[k] = (v[0], v[1], [tuple(x) for x in v[2]])
 
 
